@@ -85,3 +85,10 @@ try:
     print('MANIFEST valid;', len(m['checks']), 'checks')
 except ImportError:
     print('written (jsonschema not available to validate)')
+# consistency with the evidence of the last run
+for c in m['checks']:
+    p = os.path.join(ROOT, c['evidence_file'])
+    if os.path.exists(p):
+        lvl = json.load(open(p))['level']
+        if lvl != c['level_claimed']['category']:
+            print('WARNING: %s claims %s but the last evidence says %s' % (c['property_id'], c['level_claimed']['category'], lvl))
